@@ -84,16 +84,25 @@ def run(pid, tier, seed):
 
 
 def replay(pid, path):
+    """Re-execute the recorded (scenario generator, schedule) on the current tree and validate the
+    new trace; fall back to re-validating the recorded trace when the generator is unknown."""
     rp = json.load(open(path))
     w = vlib.workdir("replay_" + pid)
     out = os.path.join(w, "replay.ndjson")
-    with open(out, "w") as f:
-        for e in rp["trace"]:
-            f.write(json.dumps(e) + "\n")
+    meta = rp.get("meta", {})
+    done = False
+    if meta.get("gen"):
+        summ = vlib.harness(["lifecycle-replay", "--gen", json.dumps(meta["gen"]), "--sched", json.dumps(meta.get("sched", [])), "--out", out])
+        done = summ.get("runs") == 1
+    if not done:
+        with open(out, "w") as f:
+            for e in rp["trace"]:
+                f.write(json.dumps(e, separators=(",", ":")) + "\n")
     vb = vlib.validate_batch("Trace_Lifecycle", "Trace_Lifecycle.cfg", out, "replay_" + pid)
     if vb["violations"]:
-        log("recorded trace is rejected by the specification at: %s" % (vb["violations"][0].get("lenient_event") or vb["violations"][0].get("strict_event")))
+        log("%s trace is rejected by the specification at: %s" % ("re-executed" if done else "recorded",
+            vb["violations"][0].get("lenient_event") or vb["violations"][0].get("strict_event")))
         log("VIOLATION property=%s replay=%s" % (pid, path))
         return 1
-    log("recorded trace accepted")
+    log("%s trace accepted (strict=%d, divergences=%d)" % ("re-executed" if done else "recorded", vb["strict_accepted"], len(vb["divergences"])))
     return 0
